@@ -70,7 +70,7 @@ GenC01Spec == GenC01Init /\ [][FALSE]_vars
 MsgClasses == {"empty", "ascii", "nonascii", "ctl", "pct", "crlf", "blanks", "long"}
 GenC02Init ==
   \E p \in Protos, k \in Kinds, codec \in {"proto", "json"}, c \in 1..16, m \in MsgClasses, n \in {0, 1, 2},
-     me \in {<<>>, MetaE, <<H("X-Multi", <<"a", "b", "c">>)>>}, a \in {0, 1, 2}, ek \in {"err", "wrapped"} :
+     me \in {<<>>, MetaE, <<H("X-Multi", <<"a", "b", "c">>)>>}, a \in {0, 1, 2}, ek \in {"err", "wrapped", "ctxwrap"} :
     \E http \in HTTPs(k) :
       /\ (k \in {"unary", "client"} => a = 0)
       /\ InitWith(Mk(p, k, codec, http, <<"none", <<>>>>, 0, <<>>, 0, <<>>, <<M(1, 3)>>, HdrB, TrlB,
